@@ -90,6 +90,11 @@ fn fp_accepted(bytes: &[u8], key: Option<&stun_rs::HMACKey>) -> (bool, &'static 
         ..DecOpts::default()
     };
     let mut outcome = "decode-error";
+    // a panic on damaged input is not an acceptance (it is a C03 violation, reported by that check)
+    let lib_decode = |b: &[u8], o: &DecOpts| match guard(|| crate::codec::lib_decode(b, o)) {
+        Guard::Ok(r) => r,
+        _ => Err("panic".to_string()),
+    };
     if let Ok((m, _)) = lib_decode(bytes, &opts) {
         if m.attributes().iter().any(is_fp) {
             return (true, "validated-decode-accepts");
@@ -165,7 +170,11 @@ pub fn check_fp(c: &FpCase, st: &mut Stats) -> Result<(), String> {
     };
     let mut judge = |mutated: &[u8], pos: usize, what: &str, st: &mut Stats| -> Result<(), String> {
         st.evaluations += 1;
-        let (ok, how) = fp_accepted(mutated, lkey.as_ref());
+        let (ok, how) = match guard(|| fp_accepted(mutated, lkey.as_ref())) {
+            Guard::Ok(r) => r,
+            Guard::LibPanic(_) => (false, "panic-on-damaged-input"),
+            Guard::HarnessPanic(m) => return Err(format!("HARNESS-{}", m)),
+        };
         if ok {
             return Err(format!(
                 "{} at byte {} (message {} bytes, FINGERPRINT value at {}) and the bytes are still accepted as carrying a valid FINGERPRINT: {}",
